@@ -37,6 +37,18 @@ def histories(chk, emphasis=None):
                 for act in ("X", "C", "K", "D1"):
                     e2 = ev[:pos] + [act] + ev[pos:] + (["S1:ok", "B"] if flav == "tls" else ["B"])
                     H.append(dict(name="teardown-at-every-point", flav=flav, opts="app=sync", events=e2, reqs=None))
+        # the same without a socket_disconnected_event handler (the optional handler): the server must forget its
+        # connections all the same, and go on serving after close()
+        for k in range(3 if chk.tier == "quick" else 20):
+            ev, reqs = S.sequential_history(rng, flav, 2, "two", "app=sync")
+            tl = (["S1:ok", "B"] if flav == "tls" else ["B"])
+            for pos in sorted(set([len(ev)] + [rng.randint(1, len(ev)) for _ in range(3)])):
+                for act in ("X", "C", "K", "D1"):
+                    H.append(dict(name="no-disconnected-handler", flav=flav, opts="app=sync,nodisc=1", events=ev[:pos] + [act] + ev[pos:] + tl, reqs=None))
+            ev2 = S.multi_history(rng, flav, rng.randint(2, 3))
+            ev3, _ = S.sequential_history(rng, flav, 1, "one", "app=sync")
+            H.append(dict(name="no-disconnected-handler", flav=flav, opts="app=sync,nodisc=1", events=ev2 + ["C"] + tl + ["X"] + tl, reqs=None))
+            H.append(dict(name="no-disconnected-handler", flav=flav, opts="app=sync,nodisc=1", events=ev2 + ["C"] + tl, reqs=None))
     # in about a third of the histories the bytes of a later read have arrived by the time an earlier one completes
     for h in H:
         if rng.random() < 0.35:
@@ -205,6 +217,7 @@ def mon_C10(h, ents, pend, raw):
     connected, disconnected = set(), set()
     started = set()
     closed = set()
+    told = "nodisc=1" not in h["opts"]       # otherwise no handler is registered for the disconnected event
     for e in ents:
         m = re.match(r"c(\d+):(.*)", e)
         if m:
@@ -232,13 +245,15 @@ def mon_C10(h, ents, pend, raw):
         if m:
             nh, nc = int(m.group(1)), int(m.group(2))
             opened = len(connected) - len(disconnected)
-            if nh != opened:
+            if told and nh != opened:
                 out.append(("http-collection-size", "http_server retains %d connections, %d are open" % (nh, opened)))
+            if not told and nh > len(started - closed):
+                out.append(("http-collection-size", "http_server retains %d connections, only %d sockets are not closed" % (nh, len(started - closed))))
             if nc < nh:
                 out.append(("comms-collection-size", "comms::server retains %d connections, fewer than http_server's %d" % (nc, nh)))
             if nc > len(started - closed):
                 out.append(("closed-connection-retained", "comms::server retains %d connections, only %d sockets are not closed" % (nc, len(started - closed))))
-    if h["flav"] == "tcp":
+    if h["flav"] == "tcp" and told:
         # a read or a write that completes with an error (any code but the one of a cancelled operation) ends the
         # connection: the application is told, once - whatever else is in flight
         cur, failed = None, {}
@@ -303,7 +318,7 @@ def mon_C11(h, ents, pend, raw):
         if late:
             out.append(("connection-accepted-after-close", "a connection was set up after the server had been closed: " + " ".join(late[:3])))
     # after close / destroy every connected connection has had its disconnected event
-    if any(m in ("[C]", "[K]") for m in marks):
+    if any(m in ("[C]", "[K]") for m in marks) and "nodisc=1" not in h["opts"]:
         pc = S.per_conn(ents)
         cut = max(i for i, e in enumerate(ents) if e in ("[C]", "[K]"))
         conn_before = {int(m.group(1)) for m in (re.match(r"c(\d+):connected$", e) for e in ents[:cut]) if m}
@@ -350,6 +365,14 @@ def mon_C15(h, ents, pend, raw):
     if ents is None or not h["name"].startswith("expect"):
         return out
     es = S.per_conn(ents).get(1, [])
+    if h["name"].startswith("expect refused then accepted"):
+        if "perturbed" in h["name"]:
+            return out
+        ws = [unhex(e[5:]) for e in es if e.startswith("wire=") and e != "wire=?"]
+        kinds = [w[9:12] for w in ws]
+        if kinds != [b"417", b"100", b"200"]:
+            out.append(("no-interim-response-after-a-refused-one", "after the handler refused one Expect request, the next one on the connection was answered %s (expected 417, then 100 and 200)" % [k.decode() for k in kinds]))
+        return out
     if h["name"].startswith("expect twice") or h["name"].startswith("expect then invalid"):
         if "perturbed" in h["name"]:
             return out
@@ -424,7 +447,90 @@ def mon_C20(h, ents, pend, raw):
     return mon_basic(h, ents, pend, raw)
 
 
-MONITORS = {"C03": mon_C03, "C04": mon_C04, "C09": mon_C09, "C10": mon_C10, "C11": mon_C11, "C13": mon_C13, "C14": mon_C14,
+def limit_histories(chk):
+    """limits configured on the server (set_max_content_length / set_max_chunk_size) reach the receiver of every
+    connection: chunked and Content-Length requests around both limits, with and without a chunk handler"""
+    rng = chk.rng
+    H = []
+
+    def chunked(sizes):
+        b = b"POST /p HTTP/1.1\r\nHost: h\r\nTransfer-Encoding: chunked\r\n\r\n"
+        for n in sizes:
+            b += b"%x\r\n" % n + b"x" * n + b"\r\n"
+        return b + b"0\r\n\r\n"
+
+    def with_length(n):
+        return b"POST /p HTTP/1.1\r\nHost: h\r\nContent-Length: %d\r\n\r\n" % n + b"y" * n
+
+    for flav in ("tcp", "tls"):
+        hs = ["H1:ok"] if flav == "tls" else []
+        tl = (["S1:ok"] if flav == "tls" else []) + ["B"]
+        for maxc, maxk in ((64, 16), (16, 64), (100, 99), (99, 100), (32, 32), (200, 20)):
+            for handler in (0, 1):
+                lo, hi = min(maxc, maxk), max(maxc, maxk)
+                plans = [[[lo]], [[lo + 1]], [[hi]], [[hi + 1]], [[(lo + hi) // 2 + 1]], [[maxk], [maxk + 1]], [[1, 2], [maxk, 1]],
+                         [[maxk] * (maxc // maxk + 1)], [[maxk - 1] * (maxc // max(1, maxk - 1))], [("cl", maxc)], [("cl", maxc + 1)],
+                         [[2], ("cl", maxc), [maxk + 1]]]
+                for plan in plans:
+                    ev = ["A"] + hs
+                    for rq in plan:
+                        data = with_length(rq[1]) if isinstance(rq, tuple) else chunked(rq)
+                        if len(data) > 6 and rng.random() < 0.4:
+                            k = rng.randint(1, len(data) - 1)
+                            ev += ["R1:" + hexs(data[:k]), "R1:" + hexs(data[k:])]
+                        else:
+                            ev.append("R1:" + hexs(data))
+                        ev.append("W1")
+                    ev += ["E1:eof"] + tl
+                    H.append(dict(name="configured limits", flav=flav, opts="app=sync,maxc=%d,maxk=%d%s" % (maxc, maxk, ",chunk=1" if handler else ""),
+                                  events=ev, reqs=None, limits=dict(maxc=maxc, maxk=maxk, handler=handler, plan=plan)))
+    return H
+
+
+def mon_C02(h, ents, pend, raw):
+    """the configured limits decide: a chunk above the chunk limit or a body above the body limit is refused with a 4xx
+    and never handed to the application; everything at or below them is delivered and answered"""
+    out = mon_basic(h, ents, pend, raw)
+    lim = h.get("limits")
+    if ents is None or not lim:
+        return out
+    maxc, maxk, handler = lim["maxc"], lim["maxk"], lim["handler"]
+    expected = []                       # per request: True = accepted
+    for rq in lim["plan"]:
+        if isinstance(rq, tuple):
+            ok = rq[1] <= maxc
+        else:
+            ok = all(n <= maxk for n in rq) and (handler or sum(rq) <= maxc)
+        expected.append(ok)
+        if not ok:
+            break
+    statuses = []
+    for e in ents:
+        if e.startswith("c1:write="):       # what the library hands to the socket (the wire itself can show F07's stale buffer)
+            try:
+                m = re.match(rb"HTTP/1\.[01] (\d\d\d)", unhex(e.split("=", 1)[1]))
+            except ValueError:
+                m = None
+            statuses.append(int(m.group(1)) if m else -1)
+    want = [200 if ok else 400 for ok in expected]
+    got = statuses[:len(want)]
+    bad = len(got) != len(want) or any((w == 200) != (g == 200) or (w != 200 and not 400 <= g < 500) for w, g in zip(want, got))
+    if bad:
+        out.append(("configured-limit-not-applied", "limits configured on the server (body %d, chunk %d, chunk handler %d), requests %s: expected %s, the responses were %s" %
+                    (maxc, maxk, handler, lim["plan"], ["accepted" if ok else "refused" for ok in expected], statuses)))
+    for e in ents:
+        if e.startswith("c1:chunk="):
+            n = int(e.split("=", 1)[1].split(",")[0])
+            if n > maxk:
+                out.append(("over-limit-chunk-delivered", "a chunk of %d bytes was handed to the application, the configured chunk limit is %d" % (n, maxk)))
+        if e.startswith("c1:req=") and not handler:
+            body = e.split("=", 1)[1].split(",")[3]
+            if body != "-" and len(body) // 2 > maxc:
+                out.append(("over-limit-body-delivered", "a body of %d bytes was handed to the application, the configured body limit is %d" % (len(body) // 2, maxc)))
+    return out
+
+
+MONITORS = {"C02": mon_C02, "C03": mon_C03, "C04": mon_C04, "C09": mon_C09, "C10": mon_C10, "C11": mon_C11, "C13": mon_C13, "C14": mon_C14,
             "C15": mon_C15, "C19": mon_C19, "C20": mon_C20}
 
 
